@@ -387,7 +387,11 @@ mutual
         | some (.func id) => callUser F opt f sc id args
         | some o => fail s!"Non-callable object '{fn}' (is a {typeName o})"
         | none =>
-          if (builtinSig fn).isSome then do
+          if fn == "subinclude" then do
+            let vs ← evalArgs F opt f sc args
+            subincludeAll F f sc (vs.map (·.2))
+            pure .none
+          else if (builtinSig fn).isSome then do
             let vs ← evalArgs F opt f sc args
             callBuiltin F fn vs
           else fail s!"name '{fn}' is not defined"
@@ -451,7 +455,7 @@ mutual
           pure (.dict false id)
       | .lam params body => do
         let st ← get
-        let fn : Func := { name := "<lambda>", params := params.map (·, Default.required), body := [Stmt.ret [body]], scope := sc }
+        let fn : Func := { name := "<lambda>", params := params.map (·, Default.required), body := [Stmt.ret [body]], scope := sc, opt := opt }
         set { st with funcs := st.funcs ++ [fn] }
         pure (.func st.funcs.length)
       | .chain hu head rest => do
@@ -464,6 +468,35 @@ mutual
       | .ite t c e => do
         let cv ← evalExpr F opt f sc true c
         if ← truthyM cv then evalExpr F opt f sc false t else evalExpr F opt f sc true e
+  termination_by structural fuel _ _ _ => fuel
+
+  /-- `subinclude(label, …)` (builtins.go:330) followed by `interpreter.Subinclude` (interpreter.go:218):
+      the file is interpreted once, in a scope below the root scope, optimised; its scope is frozen and cached;
+      every caller gets all of its variables copied into its own scope (`SetAll(…, false)`). -/
+  def subincludeAll (F : Facts) : Nat → Nat → List Val → EM Unit
+    | 0, _, _ => fail "fuel"
+    | _ + 1, _, [] => pure ()
+    | f + 1, sc, v :: r => do
+      match v with
+      | .str label => do
+        let st ← get
+        let sub ← match st.subs.find? (·.1 == label) with
+          | some (_, s) => pure s
+          | none =>
+            match st.files.find? (·.1 == label) with
+            | none => fail s!"model: no such subinclude {label}"
+            | some (_, prog) => do
+              let s ← newScope (some 0)
+              let _ ← execStmts F true f s prog
+              freezeScope F s
+              modify fun st => { st with subs := (label, s) :: st.subs }
+              pure s
+        match (← get).scopes[sub]? with
+        | none => fail "model: bad scope"
+        | some ss => ss.vars.forM fun (k, x) => setVar sc k x
+        subincludeAll F f sc r
+      | _ => fail "cannot subinclude type"
+  termination_by structural fuel _ _ => fuel
 
   def evalExprs (F : Facts) (opt : Bool) : Nat → Nat → List Expr → EM (List Val)
     | 0, _, _ => fail "fuel"
@@ -471,6 +504,7 @@ mutual
     | f + 1, sc, e :: es => do
       let v ← evalExpr F opt f sc true e
       pure (v :: (← evalExprs F opt f sc es))
+  termination_by structural fuel _ _ => fuel
 
   def evalArgs (F : Facts) (opt : Bool) : Nat → Nat → List (Option String × Expr) → EM (List (Option String × Val))
     | 0, _, _ => fail "fuel"
@@ -478,6 +512,7 @@ mutual
     | f + 1, sc, (k, e) :: es => do
       let v ← evalExpr F opt f sc true e
       pure ((k, v) :: (← evalArgs F opt f sc es))
+  termination_by structural fuel _ _ => fuel
 
   def evalDictItems (F : Facts) (opt : Bool) : Nat → Nat → Nat → List (Expr × Expr) → EM Unit
     | 0, _, _, _ => fail "fuel"
@@ -487,6 +522,7 @@ mutual
       let vv ← evalExpr F opt f sc true v
       indexAssign (.dict false id) kv vv
       evalDictItems F opt f sc id r
+  termination_by structural fuel _ _ _ => fuel
 
   /-- `evaluateComprehension` (single `for`), reading the iterated list live -/
   def compLoop (F : Facts) (opt : Bool) :
@@ -504,6 +540,7 @@ mutual
           let v ← evalExpr F opt f cs true body
           pure (v :: (← compLoop F opt f cs body vars cond it (i + 1)))
         else compLoop F opt f cs body vars cond it (i + 1)
+  termination_by structural fuel _ _ _ _ _ _ => fuel
 
   def dcompLoop (F : Facts) (opt : Bool) :
       Nat → Nat → Nat → Expr → Expr → List String → Option Expr → Iter → Nat → EM Unit
@@ -521,6 +558,7 @@ mutual
           let vv ← evalExpr F opt f cs true v
           indexAssign (.dict false id) kv vv
         dcompLoop F opt f cs id k v vars cond it (i + 1)
+  termination_by structural fuel _ _ _ _ _ _ _ _ => fuel
 
   /-- `pyFunc.Call` for a function defined in the language (objects.go:694) -/
   def callUser (F : Facts) (opt : Bool) : Nat → Nat → Nat → List (Option String × Expr) → EM Val
@@ -531,10 +569,11 @@ mutual
       | some fn => do
         let s2 ← newScope (some fn.scope)
         bindArgs F opt f sc s2 fn 0 args
-        fillDefaults F opt f sc s2 fn.name fn.params
-        match ← execStmts F opt f s2 fn.body with
+        fillDefaults F fn.opt f sc s2 fn.name fn.params
+        match ← execStmts F fn.opt f s2 fn.body with
         | .ret v => pure v
         | _ => pure .none
+  termination_by structural fuel _ _ _ => fuel
 
   def bindArgs (F : Facts) (opt : Bool) : Nat → Nat → Nat → Func → Nat → List (Option String × Expr) → EM Unit
     | 0, _, _, _, _, _ => fail "fuel"
@@ -553,6 +592,7 @@ mutual
           setVar s2 p v
         | none => fail s!"Too many arguments to {fn.name}"
       bindArgs F opt f sc s2 fn (i + 1) r
+  termination_by structural fuel _ _ _ _ _ => fuel
 
   def fillDefaults (F : Facts) (opt : Bool) : Nat → Nat → Nat → String → List (String × Default) → EM Unit
     | 0, _, _, _, _ => fail "fuel"
@@ -569,6 +609,7 @@ mutual
           setVar s2 p v
         | .required => fail s!"Missing required argument to {fname}: {p}"
       fillDefaults F opt f sc s2 fname r
+  termination_by structural fuel _ _ _ _ => fuel
 
   /-- `newPyFunc`: constant defaults are evaluated now (`parentScope.Constant`), the others kept as expressions -/
   def mkParams (F : Facts) (opt : Bool) : Nat → Nat → List (String × Option Expr) → EM (List (String × Default))
@@ -584,6 +625,7 @@ mutual
           if isConst then do pure (Default.const (← evalExpr F opt f sc true e))
           else pure (Default.expr e)
       pure ((p, d') :: (← mkParams F opt f sc r))
+  termination_by structural fuel _ _ => fuel
 
   /-- `interpretStatements` -/
   def execStmts (F : Facts) (opt : Bool) : Nat → Nat → List Stmt → EM Flow
@@ -593,6 +635,7 @@ mutual
       match ← execStmt F opt f sc s with
       | .normal => execStmts F opt f sc rest
       | fl => pure fl
+  termination_by structural fuel _ _ => fuel
 
   def execStmt (F : Facts) (opt : Bool) : Nat → Nat → Stmt → EM Flow
     | 0, _, _ => fail "fuel"
@@ -651,7 +694,7 @@ mutual
       | .def_ fname params body => do
         let ps ← mkParams F opt f sc params
         let st ← get
-        set { st with funcs := st.funcs ++ [({ name := fname, params := ps, body := body, scope := sc } : Func)] }
+        set { st with funcs := st.funcs ++ [({ name := fname, params := ps, body := body, scope := sc, opt := opt } : Func)] }
         setVar sc fname (.func st.funcs.length)
         pure .normal
       | .ret es =>
@@ -672,6 +715,7 @@ mutual
       | .assert_ e => do
         let v ← evalExpr F opt f sc true e
         if ← truthyM v then pure .normal else fail "assertion failed"
+  termination_by structural fuel _ _ => fuel
 
   def condLoop (F : Facts) (opt : Bool) : Nat → Nat → List (Expr × List Stmt) → List Stmt → EM Flow
     | 0, _, _, _ => fail "fuel"
@@ -679,6 +723,7 @@ mutual
     | f + 1, sc, (c, body) :: r, els => do
       let v ← evalExpr F opt f sc true c
       if ← truthyM v then execStmts F opt f sc body else condLoop F opt f sc r els
+  termination_by structural fuel _ _ _ => fuel
 
   /-- `interpretFor` -/
   def forLoop (F : Facts) (opt : Bool) : Nat → Nat → List String → List Stmt → Iter → Nat → EM Flow
@@ -692,6 +737,7 @@ mutual
         | .ret v => pure (.ret v)
         | .brk => pure .normal
         | _ => forLoop F opt f sc xs body it (i + 1)
+  termination_by structural fuel _ _ _ _ _ => fuel
 end
 
 /-! ### Whole programs -/
@@ -745,6 +791,33 @@ def runProgram (F : Facts) (opt : Bool) (fuel : Nat) (p : Program) : Except Stri
     let _ ← execStmts F opt fuel pkg p
     if opt then freezeScope F pkg
     renderScope pkg
+  match m.run {} with
+  | .ok (g, _) => .ok g
+  | .error e => .error e
+
+/-! ### Several files in one interpreter (C17, C18) -/
+
+/-- Package files interpreted one after the other in one interpreter; `files` are what they can subinclude.
+    Result: the globals of every package right after it was interpreted, and the globals of every package
+    once all of them have been interpreted. -/
+def runPackages (F : Facts) (fuel : Nat) (files : List (String × Program)) (pkgs : List (String × Program)) :
+    Except String (List (String × Globals) × List (String × Globals)) :=
+  let m : EM (List (String × Globals) × List (String × Globals)) := do
+    let _root ← newScope none
+    modify fun st => { st with files := files }
+    let rec go : List (String × Program) → EM (List (String × Nat × Globals))
+      | [] => pure []
+      | (name, p) :: r => do
+        let sc ← newScope (some 0)
+        let _ ← execStmts F false fuel sc p
+        let g ← renderScope sc
+        pure ((name, sc, g) :: (← go r))
+    let rs ← go pkgs
+    let rec final : List (String × Nat × Globals) → EM (List (String × Globals))
+      | [] => pure []
+      | (name, sc, _) :: r => do pure ((name, ← renderScope sc) :: (← final r))
+    let fin ← final rs
+    pure (rs.map fun e => (e.1, e.2.2), fin)
   match m.run {} with
   | .ok (g, _) => .ok g
   | .error e => .error e
